@@ -260,7 +260,12 @@ func genDesc(rng *rand.Rand, hostile int, withFiles bool) Desc {
 			}
 		}
 	}
-	for i, n := 0, 1+rng.Intn(3); i < n; i++ {
+	nScn := 1 + rng.Intn(3)
+	if rng.Intn(16) == 0 {
+		// no scenario at all: the section is left out in both syntaxes (YAML: no key, or an empty list)
+		nScn = 0
+	}
+	for i, n := 0, nScn; i < n; i++ {
 		s := Scn{Name: genName(rng, "scn", i)}
 		if rng.Intn(3) > 0 {
 			w := []int64{0, 1, 2, 3, 4, 6, 10, 1 << 40}[rng.Intn(7)]
@@ -411,6 +416,12 @@ func (d Desc) YAML() string {
 				}
 			}
 		}
+	}
+	if len(d.Scenarios) == 0 {
+		if (len(d.Requests)+len(d.Calls)+len(d.Sources))%2 == 0 {
+			b.WriteString("scenarios: []\n")
+		}
+		return b.String()
 	}
 	b.WriteString("scenarios:\n")
 	for _, s := range d.Scenarios {
@@ -981,7 +992,7 @@ func drainProvider(kind, file string, n int) ([]core.Ammo, error) {
 }
 
 func ringSize(d Desc) int {
-	if len(d.Scenarios) == 1 {
+	if len(d.Scenarios) <= 1 {
 		return 1
 	}
 	var ws []int64
